@@ -6,7 +6,7 @@
    - hash256 of the filter-header chain is universally quantified. *)
 From V Require Import Base.Prelude Base.Ints Model.Helper Model.Gcs Model.Network
   Model.Siphash Model.Murmur Model.Bloom Model.CFilter
-  Proofs.HelperP Proofs.GcsP Proofs.CFilterP Proofs.MurmurP Proofs.BloomP Proofs.SiphashP Proofs.CFilterKnownP.
+  Proofs.HelperP Proofs.GcsP Proofs.CFilterP Proofs.MurmurP Proofs.BloomP Proofs.SiphashP.
 From V Require Spec.Murmur Spec.Siphash.
 
 (* (1) Golomb-Rice: decoding inverts encoding for every x >= 0 and every parameter p,
@@ -212,16 +212,29 @@ Example bloom_example :
    bit_field_to_bytes (bf_bits b)) = Ok [0;0;0;10;8;0;0;0;1;64].
 Proof. vm_compute. reflexivity. Qed.
 
-(* KNOWN DEFECT (reported; findings/C18.json K-C18-compactfilter-serialize-drops-equal-values):
-   CompactFilter.serialize() re-encodes the SET of decoded values.  For an element list with equal
-   hashed values (here the same element twice; a collision in [0, N*M) behaves the same) the
-   re-serialisation differs from the bytes the filter was parsed from (N = 1 instead of 2), and the
-   filter parsed from it no longer reports the element. *)
-Theorem C18_cf_serialize_refuted :
-  exists key items fb cf,
-    encode_gcs siphash key items = Ok fb /\ cf_parse key fb = Ok cf /\
-    cf_serialize cf <> Ok fb /\
-    exists fb' cf', cf_serialize cf = Ok fb' /\ cf_parse key fb' = Ok cf' /\
-                    In [81] items /\ cf_contains siphash cf' [81] = Ok false.
-Proof. exact cf_serialize_refuted. Qed.
-Print Assumptions C18_cf_serialize_refuted.
+(* (3'') CompactFilter.serialize() inverts CompactFilter.parse() on every canonical GCS (the
+   serialisation of any non-negative non-decreasing list, equal values included), hence
+   CompactFilter.hash() = hash256 of the bytes received on the wire (hash256 universally quantified) *)
+Theorem C18_cf_serialize_inverts_parse : forall key items raw,
+  ascending 0 items -> serialize_gcs items = Ok raw ->
+  exists cf, cf_parse key raw = Ok cf /\ cf_items cf = items /\ cf_serialize cf = Ok raw /\
+             forall hash256 : bytes -> bytes, cf_hash hash256 cf = Ok (hash256 raw).
+Proof. exact cf_serialize_parse. Qed.
+Print Assumptions C18_cf_serialize_inverts_parse.
+
+(* ... in particular on every filter produced by encode_gcs, for every keyed hash into [0, 2^64)
+   (duplicates and collisions in [0, N*M) included) *)
+Theorem C18_cf_serialize_inverts_parse_encode :
+  forall (sip : bytes -> bytes -> result Z) key items raw,
+  (forall v h, In v items -> sip key v = Ok h -> 0 <= h < 18446744073709551616) ->
+  encode_gcs sip key items = Ok raw ->
+  exists cf, cf_parse key raw = Ok cf /\ cf_serialize cf = Ok raw /\
+             forall hash256 : bytes -> bytes, cf_hash hash256 cf = Ok (hash256 raw).
+Proof. exact cf_serialize_parse_encode. Qed.
+Print Assumptions C18_cf_serialize_inverts_parse_encode.
+
+(* the input on which serialize() used to drop a value (fixed by 4b29cf6): the same element twice *)
+Example cf_serialize_example :
+  (cf <- cf_parse [0;1;2;3;4;5;6;7;8;9;10;11;12;13;14;15] [2;72;15;128;0;0] ;; cf_serialize cf)
+  = Ok [2;72;15;128;0;0].
+Proof. vm_compute. reflexivity. Qed.
